@@ -116,6 +116,12 @@ theorem respects_reSetKw : Respects K S reSetKw := by
   intro w w' ⟨h1, h2, h3, h4, h5, h6⟩ hk ha
   exact ⟨⟨h1, h2, h3, h4, h5, h6⟩, fun k => by simp [reSetKw, hk k], ha⟩
 
+theorem respects_setArgs (x : PRef) (v : Nat) : Respects K S (setArgs x v) := by
+  intro w w' ⟨h1, h2, h3, h4, h5, h6⟩ hk ha
+  refine ⟨⟨h1, h2, h3, h4, h5, h6⟩, hk, ?_⟩
+  intro s hs
+  simp [setArgs, setAt, ha s hs]
+
 /-- writing `args` of parser object `x` makes the two runs agree on it -/
 theorem setArgs_sim (x : PRef) (v : Nat) (h : RunSim K S r r') :
     RunSim K (fun s => S s ∨ s = x) (r.upd (setArgs x v)) (r'.upd (setArgs x v)) := by
@@ -285,7 +291,7 @@ theorem dumpBody_sim (F : Facts) (hF : F.dkSetInSerialize = true) (p : Nat) (dk 
   apply when_sim _ _ h1
   intro a a' ha
   rw [hF]
-  simp only [Run.when, if_true]
+  simp only [Run.when, if_true, Bool.not_true, Bool.false_eq_true, if_false]
   obtain ⟨hag, hk, haa, hi, hs⟩ := upd_sim (respects_setDk dk) ha
   split
   · exact ⟨hag, hk, haa, by simp [Run.noteW, Run.note, Run.upd, setDk, ha.infl], hs⟩
@@ -633,7 +639,8 @@ theorem dumpBody_keepP (F : Facts) (dk : DK) (t : Tail) (r : Run) : KeepP p r (d
   unfold dumpBody
   refine (noteW_keepP r _).trans (when_keepP _ _ ?_)
   intro a
-  exact (when_keepP a _ (fun b => setDk_keepP b dk)).trans (when_keepP _ _ (fun b => noteW_keepP b _))
+  exact ((when_keepP a _ (fun b => setDk_keepP b dk)).trans (when_keepP _ _ (fun b => noteW_keepP b _))).trans
+    (when_keepP _ _ (fun b => setDk_keepP b dk))
 
 theorem revalidate_keepP (F : Facts) (hL : F.linkedOnFreshOnly = true) (hD : F.dcDefaultOnAction = false)
     (valId : Nat) (t : Tail) (fail : Outcome) (r : Run) : KeepP p r (revalidate F p valId t fail r) := by
@@ -763,6 +770,7 @@ theorem parseArgs_congr (F : Facts) (hF : Sound F = true) (d : PDesc) (p : Nat) 
   simp only []
   apply finish_congr (K := True) (S := fun s => False ∨ s = PRef.root p)
   apply when_sim _ (fun _ _ hh => upd_sim (respects_setPending p none) hh)
+  apply when_sim _ (fun _ _ hh => upd_sim (respects_setArgs (PRef.root p) a.id) hh)
   have h1 : RunSim False (fun _ => False) (({ w := w } : Run).when d.shtab fun r => r.upd (setShtab p))
       (({ w := w' } : Run).when d.shtab fun r => r.upd (setShtab p)) :=
     when_sim _ (fun _ _ hh => upd_sim (respects_setShtab p) hh) (start_sim h)
@@ -845,7 +853,7 @@ theorem parseArgs_restores (F : Facts) (hF : Sound F = true) (D : Nat → PDesc)
           fun r => r.upd (setArgs (.root p) a.id))) := by
     refine Keep.trans ?_ (parseArgsBody_keep F hC hL hD hW (D p) a _)
     exact ((when_keepP _ _ (fun b => setShtab_keepP b p)).trans (when_keepP _ _ (fun b => setArgs_keepP b _ _))).1
-  have h2 := h1.trans (setPending_keep _ none)
+  have h2 := (h1.trans (when_keepP _ (!F.argsBeforeParse) (fun b => setArgs_keepP b (.root p) a.id)).1).trans (setPending_keep _ none)
   exact inv_of_keep hw rfl h2 (by simp [Run.upd, setPending, setAt])
 
 theorem parseOther_restores (F : Facts) (hF : Sound F = true) (D : Nat → PDesc) (p : Nat) (i : Input) {w : World}
